@@ -1363,4 +1363,22 @@ theorem samplesFrom_ends (dt : Int) (v : Int) (vs : List Int) (t0 : Int) :
     simp only [List.length_cons, Option.some.injEq]
     rw [Int.natCast_add, Int.add_mul]; omega
 
+theorem ediv_bounds (x dt : Int) (hdt : 0 < dt) : (0 ≤ x → 0 ≤ x / dt ∧ x / dt ≤ x) ∧ (x < 0 → x ≤ x / dt ∧ x / dt < 0) := by
+  constructor
+  · intro hx
+    exact ⟨Int.ediv_nonneg hx (Int.le_of_lt hdt), Int.ediv_le_self _ hx⟩
+  · intro hx
+    constructor
+    · rw [Int.le_ediv_iff_mul_le hdt]
+      have := Int.mul_le_mul_of_nonpos_left (a := x) (b := dt) (c := 1) (by omega) (by omega)
+      omega
+    · exact Int.ediv_neg_of_neg_of_pos hx hdt
+
+
+theorem pySlice_length_le {α} (l : List α) (i j : Int) : (pySlice l i j).length ≤ l.length := by
+  unfold pySlice
+  simp only [List.length_drop, List.length_take]
+  omega
+
+
 end Verif.C01
